@@ -205,7 +205,16 @@ def o16_6(tier):
                 side = (Fr(3, 5), Fr(4, 5)) if path[0] == vid else (Fr(3, 5), Fr(-4, 5))
                 return rot(E[i], side)
             u = versor_concrete(ctx, fr, assign)
-            fm = force_matrix(ctx, fr, False, angle_limit=limit)
+            lim = limit
+            if limit == "pi":
+                # the opening of the opposite spokes IS the limit (arccos(-1) = pi): 'at least the limit' includes equality
+                if ctx.mode == "sym":
+                    from fvc import lib
+                    lim = lib.pi_value()
+                else:
+                    import math
+                    lim = math.pi
+            fm = force_matrix(ctx, fr, False, angle_limit=lim)
             deletes = sorted(ctx.list_of(ctx.get(fm, "deletes")))
             used = [ctx.list_of(c) for c in ctx.list_of(ctx.get(fm, "big_edges_to_use"))]
             rows = sorted(ctx.keys(ctx.get(fm, "map_vid_to_row")))
@@ -214,7 +223,7 @@ def o16_6(tier):
                 ctx.ensure(deletes == sorted([J] + [sp[-1] for sp in spokes]), "limit 1.0: every junction is flagged")
                 ctx.ensure(used == [] and rows == [] and len(mat) == 0, "limit 1.0: every interface is excluded, no equation is left")
                 return
-            ctx.ensure(deletes == [J], "only the four-fold junction (opposite interfaces open by pi >= 3.0) is flagged")
+            ctx.ensure(deletes == [J], f"only the four-fold junction (opposite interfaces open by pi >= {limit}) is flagged")
             ctx.ensure(len(used) == 4, "no interface is excluded: none has both ends flagged")
             ctx.ensure(rows == [J] and len(mat) == 2, "the flagged junction keeps its two equations")
             if len(mat) != 2:
@@ -246,7 +255,7 @@ def o16_6(tier):
         versor_concrete(ctx, fr, table(E))
         second = force_matrix(ctx, fr, False, angle_limit=3.0)
         ctx.ensure(sorted(ctx.list_of(ctx.get(second, "deletes"))) == [J], "second build (straight spokes, opening pi >= 3.0): the junction is flagged by ITS directions")
-    return [("four_fold,limit=3.0", mk(3.0, False)), ("four_fold,limit=1.0", mk(1.0, True)), ("four_fold,two-builds-with-other-directions", h_two_builds)]
+    return [("four_fold,limit=3.0", mk(3.0, False)), ("four_fold,limit=1.0", mk(1.0, True)), ("four_fold,limit=pi-exactly-the-opening", mk("pi", False)), ("four_fold,two-builds-with-other-directions", h_two_builds)]
 
 
 @obligation("O16.3u", ["C16", "C10"], [FM + "get_solution_no_discarded"],
